@@ -20,13 +20,30 @@ REGISTRY = {
                     "(framing, successor) table is compared cell by cell with the spec table (R06.1, R06.2); "
                     "R06.3 checks the structure of the `chunked` token matcher, R06.4 the public BodyMode map.",
     ),
+    "C13": dict(modules=["rules_redirect"], rules_attr="C13_RULES", min_instances=4, trusted_base=TB,
+                explanation="E4 abstract interpretation of Flow::<Redirect>::as_new_flow (all local callees inlined, URL "
+                            "resolver opaque): per abstract path the ordered events (header suppression calls with their "
+                            "literal names and receivers, URI override, same-host comparison, request rebuild) are checked: "
+                            "must-pass-through (R13.1), authorization decision table over policy x three comparison atoms "
+                            "(R13.2), comparison-before-override ordering and operand origins (R13.3), rebuild from the "
+                            "original request (R13.4)."),
+    "C14": dict(modules=["rules_redirect"], rules_attr="C14_RULES", min_instances=8, trusted_base=TB,
+                explanation="Provenance rules on the abstract paths of as_new_flow and on the MIR of the helpers: last "
+                            "Location selection (R14.1), resolution base read through the override-aware URI accessor "
+                            "(R14.2), resolver result installed as override (R14.3), accessor table and its consumers "
+                            "request line / Host (R14.4), failure arms return Err (R14.5). RFC 3986 resolution itself is "
+                            "inside the url crate and not decided."),
+    "C15": dict(modules=["rules_redirect"], rules_attr="C15_RULES", min_instances=4, exhaustive=True, trusted_base=TB,
+                explanation="E4 decision tables: method rewriting over (status cell x method) from as_new_flow (R15.1), "
+                            "redirect detection over all status codes from the advance function (R15.2), origin of the "
+                            "reported status (R15.3); compared with tables written from the property statement."),
 }
 
 _PENDING = "check not built yet in this round (planned static rules: DESIGN.md section 4)"
 NOT_APPLICABLE = {
     "C01": _PENDING, "C02": _PENDING, "C03": _PENDING, "C04": _PENDING, "C05": _PENDING,
     "C07": _PENDING, "C08": _PENDING, "C09": _PENDING, "C10": _PENDING, "C11": _PENDING,
-    "C12": _PENDING, "C13": _PENDING, "C14": _PENDING, "C15": _PENDING, "C16": _PENDING,
+    "C12": _PENDING, "C16": _PENDING,
     "C17": _PENDING, "C18": _PENDING, "C20": _PENDING,
     "C19": "quantitative liveness claim over two run-time lengths and hex-digit counts: no clause is visible in "
            "the shape of the code without evaluating that arithmetic (a solver or execution would be another "
@@ -34,6 +51,30 @@ NOT_APPLICABLE = {
 }
 
 MANIFEST_META = {
+    "C13": dict(
+        technique="abstract interpretation over MIR: must-pass-through, ordering and decision-table rules on event paths",
+        design_ref="DESIGN.md section 4 C13",
+        level_text="Path rules decided on every abstract path of the redirect-following function: Cookie and Content-Length "
+                   "suppression is passed on every followed path; the Authorization decision equals the policy table over "
+                   "(policy, host equal, scheme equal, target https); the comparison reads the rebuilt original request's URI "
+                   "before the override; the new flow is rebuilt from the original request at every hop.",
+        level_note="Trusted: rustc MIR; axioms for Option/Result combinators, http accessors, equality of http types; that the "
+                   "suppression list is honoured by every consumer is C16/C02's rule (effective header iterator)."),
+    "C14": dict(
+        technique="provenance (origin) rules over MIR call graph + abstract interpretation of accessor tables",
+        design_ref="DESIGN.md section 4 C14",
+        level_text="Structural provenance only: which Location is stored (last), which URI is the resolution base (effective, "
+                   "current-hop), that the resolver's result is what gets installed, that request line and Host derive from the "
+                   "effective URI, and that all failure arms return errors.",
+        level_note="NOT decided: RFC 3986 reference resolution and fragment dropping (inside url::Url::join / http::Uri parsing). "
+                   "Reviewed panic sites: non-absolute base URI, second use of a consumed redirect flow."),
+    "C15": dict(
+        technique="abstract interpretation over MIR (finite-domain decision tables) compared with spec tables",
+        design_ref="DESIGN.md section 4 C15",
+        level_text="Exhaustive decision tables over (status 300..399 except 304, partitioned at every compared constant) x (nine "
+                   "standard methods + extension) for the rewritten method, and over all status codes for redirect detection.",
+        level_note="Trusted: rustc MIR; axioms for StatusCode/Method equality and StatusCode::is_redirection; typestate premise "
+                   "(Redirect flow holds a status) from C09."),
     "C06": dict(
         technique="abstract interpretation over MIR (finite-domain decision table) compared with a spec table",
         design_ref="DESIGN.md section 4 C06",
